@@ -44,12 +44,19 @@ var unicodePreds = map[string]func(rune) bool{
 // is not run — and the leaf reached must be the counter of the character's
 // reference class.
 func (c *Ctx) charClasses(rule string) {
-	r := c.R
 	fn := c.P.FuncOpt("ab/defaults.tallyCharacters")
 	if fn == nil {
-		r.Unknown(rule, "ab/defaults", "tallyCharacters", "-", "character classifier not found")
+		c.R.Unknown(rule, "ab/defaults", "tallyCharacters", "-", "character classifier not found")
 		return
 	}
+	c.charClassesOf(rule, fn, nil)
+}
+
+// charClassesOf decides the classifier loop found in fn. named, when given,
+// names the class each counter of the loop stands for (a classifier inlined
+// into its user has no results to name them by).
+func (c *Ctx) charClassesOf(rule string, fn *ssa.Function, named map[*ssa.Phi]string) {
+	r := c.R
 	name := FuncName(fn)
 	pos := c.P.Pos(fn.Pos())
 	var next *ssa.Next
@@ -101,6 +108,9 @@ func (c *Ctx) charClasses(rule string) {
 				classOf[p] = res.At(i).Name()
 			}
 		}
+	}
+	for p, cl := range named {
+		classOf[p] = cl
 	}
 	want := map[string]bool{"upper": true, "lower": true, "numeric": true, "symbols": true, "whitespace": true}
 	got := map[string]bool{}
